@@ -3,7 +3,8 @@
 proof      : XmpProps.C19 over XmpModel.FmtMod/FmtS3m/FmtXm/FmtIt
              (whole file read (write s o) = some s for MOD, S3M, XM and IT incl. IT instrument mode and compressed samples)
 oracle     : files written by the Lean `write` (independent encoder) from random abstract songs are loaded
-             by the real library from memory (harness/c19_roundtrip.c); the canonical dump is compared
+             by the real library through all four entry points (memory, path, callbacks, FILE with adversarial values
+             of its ignored `size` argument; harness/c19_roundtrip.c); the canonical dump is compared
              field by field with the abstract song
 tie        : the Lean loader model `read` is run on the same bytes, on byte mutants and on the repository's
              corpus files of the four formats and compared with the real loader's dump
@@ -41,7 +42,13 @@ MANIFEST = dict(
          "loop points compared only when the loop flag is set. Domain restrictions found by the oracle/proofs: the S3M/IT scan from order 0 (entries naming no "
          "stored pattern are skipped) must reach a stored pattern before an end marker, MOD sample bodies must not spell 'ADPCM' at a sample start, an XM "
          "sample that stores >= 8 bytes must not have 'OggS' at its own offset 4 (it would legitimately be an Ogg sample), IT samples of exactly one frame are never loaded (len>1 test), an IT "
-         "pattern stored as offset 0 is 64 rows. Generators: every numeric header field is drawn from its boundary set with decent probability (speed/tempo "
+         "pattern stored as offset 0 is 64 rows. Entry points: every written file is loaded through all four entry points (memory, path, "
+         "callbacks, FILE) and xmp_load_module_from_file gets adversarial values of its ignored `size` argument (0, real size +-1, the "
+         "sizes at which the MOD loader's song-file / WOW / FlexTrax heuristics would fire for the song, -1, INT_MAX); each must load "
+         "the module the memory entry point loads (which is compared with the abstract song). The file size those heuristics read is "
+         "`bs.length` in Mod.read; the generated facts XmpModel/Gen/C19Size.lean (tools/c19_gen_size.py) + C19_size_is_stream_length "
+         "state that every entry point stores module_data.size once, as the size of the stream it opened. "
+         "Generators: every numeric header field is drawn from its boundary set with decent probability (speed/tempo "
          "{1,2,31,32,125,254,255}, volume/pan bytes {0,1,63,64,127,128,255}, sample rates 0..2^32-1 extremes, sample lengths "
          "1/2/odd, order-list lengths at the maxima) and size class 9 writes the formats' maximum counts with tiny contents "
          "(MOD 128 patterns with order value 127, S3M 254 patterns/255 orders/255 instruments, XM 256 patterns/256 orders/255 "
@@ -62,7 +69,7 @@ REQUIRED = ["Xmp.Fmt.C19_roundtrip_mod", "Xmp.Fmt.C19_mod_period_roundtrip", "Xm
             "Xmp.Fmt.C19_it_pattern_codec", "Xmp.Fmt.C19_it_channel_scan", "Xmp.Fmt.C19_it_sample_compression",
             "Xmp.Fmt.C19_roundtrip_it", "Xmp.Fmt.C19_it_key_table_codec",
             "Xmp.Fmt.C19_roundtrip_xm", "Xmp.Fmt.C19_xm_ogg_window_regression", "Xmp.Fmt.C19_xm_pcm_codec",
-            "Xmp.Fmt.C19_roundtrip_all", "Xmp.Fmt.C19_s3m_order_rule"]
+            "Xmp.Fmt.C19_roundtrip_all", "Xmp.Fmt.C19_s3m_order_rule", "Xmp.Fmt.C19_size_is_stream_length"]
 
 TYPE_PREFIX = {"mod": None, "s3m": " S3M", "xm": " XM ", "it": " IT "}
 
@@ -197,6 +204,43 @@ def corpus_of(fmt):
     return [f for f in vlib.corpus_files() if f.lower().endswith(exts) and os.path.getsize(f) < 1500000]
 
 
+def advisory_sizes(data, body):
+    """Values for the `size` argument of xmp_load_module_from_file (documented as ignored): 0, the real size and its
+    neighbours, the sizes at which the MOD loader's file-size heuristics would fire for this song (Protracker song
+    file: 1084 + 1024*patterns; Mod's Grave WOW: 1084 + 2048*patterns + sample bytes, also odd; just past the FlexTrax
+    probe offset), -1 and INT_MAX."""
+    npat = sum(1 for l in body if l.startswith("pat "))
+    chn = 4
+    smp = 0
+    for l in body:
+        f = l.split(" ")
+        if f[0] == "counts":
+            chn = int(f[1])
+        elif f[0] == "smp":
+            flg = int(f[5])
+            smp += int(f[2]) * (2 if flg & 1 else 1) * (2 if flg & 128 else 1)
+    n = len(data)
+    out = []
+    for v in (0, n, n - 1, n + 1, 1084 + 1024 * npat, 1084 + 2048 * npat + smp, 1084 + 2048 * npat + smp + 1,
+              1084 + 256 * chn * npat + smp + 8, -1, 2147483647):
+        if v not in out:
+            out.append(v)
+    return out
+
+
+def entry_results(lines):
+    """`entry <name> same|rc <n>|differs` lines of an `all` request (+ the "| " dump lines of a differing entry)."""
+    res, cur = [], None
+    for l in lines:
+        if l.startswith("entry "):
+            f = l.split(" ")
+            cur = {"name": f[1], "what": " ".join(f[2:]), "dump": []}
+            res.append(cur)
+        elif l.startswith("| ") and cur is not None:
+            cur["dump"].append(l[2:])
+    return res
+
+
 def corpus_first(ck, exe, drv, bump):
     """corpus/C19/*.json: regression witnesses of repaired loader defects (file bytes + the abstract song's dump),
     run before anything else: direct oracle (real loader vs recorded abstract song) and model correspondence."""
@@ -248,6 +292,11 @@ def run(ck):
     quick = ck.tier == "quick"
     import time
     t0 = time.time()
+    # translator: where module_data.size (read by the MOD loader's file-size heuristics) is stored, from the working tree
+    import c19_gen_size
+    g = ck.gen(c19_gen_size.generate)
+    ck.note("size_stores", ["%s:%s = %s" % (st[0], st[1], st[2]) for st in g["stores"]])
+    ck.note("size_readers", ["%s:%s" % r for r in g["readers"]])
     ck.proofs(["XmpProps.C19"], required=REQUIRED, drivers=["drv_c19"])
     ck.note("t_proofs_s", round(time.time() - t0, 1))
     exe = vlib.build_harness("c19_roundtrip", ["c19_roundtrip.c"])
@@ -309,7 +358,8 @@ def run(ck):
                     raise vlib.InfraError("drv_c19 gen produced no file for " + cid)
                 data = bytes.fromhex(meta["hex"]) if meta["hex"] != "-" else b""
                 files[cid] = (fmt, data, body, meta)
-                hexreqs.append("hex %s %s" % (cid, meta["hex"]))
+                hexreqs.append("all %s %s %s" % (cid, ",".join(str(v) for v in advisory_sizes(data, body)), meta["hex"])
+                               if data else "hex %s %s" % (cid, meta["hex"]))
                 # the model's own round trip (what the theorems claim, evaluated)
                 bump("%s_model_roundtrip_%s" % (fmt, meta.get("rt", "?")))
                 bump("%s_generated_wellformed_%s" % (fmt, meta.get("wf", "?")))
@@ -337,7 +387,8 @@ def run(ck):
         for cid, (f_fmt, data, body, meta) in files.items():
             if f_fmt != fmt or cid not in real:
                 continue
-            rmeta, rbody = strip_meta(real[cid])
+            entries = entry_results(real[cid])
+            rmeta, rbody = strip_meta([l for l in real[cid] if not l.startswith(("entry ", "| "))])
             key = vlib.hash_str(meta["hex"][:4000] + str(len(data)))
             nontrivial = any(l.startswith("smp ") and not l.endswith(" -") for l in body) and len(data) > 1084
             ck.count(key, nontrivial=nontrivial)
@@ -359,6 +410,23 @@ def run(ck):
                              "loaded %s module differs from the encoded abstract song: %s ; opts %s" % (fmt, d, meta.get("opts")))
             else:
                 bump(fmt + "_oracle_agree")
+            # the other entry points (path, callbacks, FILE with every advisory `size`) must load the same module
+            for e in entries:
+                bump(fmt + "_oracle_entry_loads")
+                if e["what"] == "same":
+                    bump(fmt + "_oracle_entry_agree")
+                    continue
+                kind = e["name"].split(":")[0]
+                if e["dump"]:
+                    dd, fld = first_diff(canon(fmt, body), canon(fmt, strip_meta(e["dump"])[1]))
+                    desc = "differs from the abstract song: %s" % dd if dd else "differs from the memory load"
+                    fld = fld or "other"
+                else:
+                    fld, desc = "rc", "returns %s while the memory load returns %s" % (
+                        e["what"], rbody[0] if rbody and rbody[0].startswith("loadfail") else "0")
+                ck.violation("oracle:%s:entry-%s:%s" % (fmt, kind, fld),
+                             {"fmt": fmt, "hex": data.hex(), "opts": meta.get("opts"), "entry": e["name"], "expected_dump": body},
+                             "%s file loaded through entry point %s %s ; opts %s" % (fmt, e["name"], desc, meta.get("opts")))
 
         ck.note("t_oracle_%s_s" % fmt, round(time.time() - tf, 1))
         tf = time.time()
@@ -436,7 +504,9 @@ def replay(ck, rp):
     if not isinstance(r, dict) or "hex" not in r:
         print("replay file names a broken theorem/correspondence, not an input: %s" % str(r)[:1500])
         return 1
-    rc, out, err = run_proc([exe], "hex replay %s\n" % (r.get("hex") or "-"))
+    data = bytes.fromhex(r.get("hex") or "")
+    sizes = ",".join(str(v) for v in advisory_sizes(data, r.get("expected_dump") or []))
+    rc, out, err = run_proc([exe], ("all replay %s %s\n" % (sizes, r["hex"])) if data else "hex replay -\n")
     print("recorded: fmt=%s opts=%s diff=%s" % (r.get("fmt"), r.get("opts"), r.get("diff")))
     verdict = None
     if rc != 0:
@@ -444,8 +514,15 @@ def replay(ck, rp):
         print(err[-2000:])
     else:
         blocks = parse_blocks(out)
-        _, rbody = strip_meta(blocks[0][1]) if blocks else ({}, ["loadfail ?"])
-        if rbody and rbody[0].startswith("loadfail"):
+        lines = blocks[0][1] if blocks else ["loadfail ?"]
+        bad = [e for e in entry_results(lines) if e["what"] != "same"]
+        _, rbody = strip_meta([l for l in lines if not l.startswith(("entry ", "| "))])
+        if bad:
+            verdict = "entry point(s) %s do not load what the memory entry point loads" % ", ".join(
+                "%s (%s)" % (e["name"], e["what"]) for e in bad)
+        if verdict:
+            pass
+        elif rbody and rbody[0].startswith("loadfail"):
             verdict = "the real loader refuses the file: " + rbody[0]
         elif r.get("expected_dump"):
             d, _ = first_diff(canon(r["fmt"], r["expected_dump"]), canon(r["fmt"], rbody))
